@@ -145,3 +145,22 @@ Theorem C10_strict_rejects_parse : forall cfg c u root pre sub post st q,
   parse cfg c u root (pre ++ sub ++ post) = Err ParserError.
 Proof. intros. unfold parse. eapply strict_rejects_sub; eassumption. Qed.
 Print Assumptions C10_strict_rejects_parse.
+
+(* 8. UnionNode (elements bound through a union of classes are recorded and replayed per
+      candidate): the replay configuration differs from the user's only in
+      fail_on_converter_warnings, and it is the only configuration the replay is called with;
+      so the strictness options act inside union-bound elements as everywhere else, and an
+      injection that is transparent for every candidate's replay is transparent for the union *)
+Theorem C10_union_replay_config : forall k,
+  fail_unknown_props (with_fail_conv k) = fail_unknown_props k
+  /\ fail_unknown_attrs (with_fail_conv k) = fail_unknown_attrs k
+  /\ cf_nodefault (with_fail_conv k) = cf_nodefault k
+  /\ fail_conv_warnings (with_fail_conv k) = true.
+Proof. exact with_fail_conv_spec. Qed.
+Print Assumptions C10_union_replay_config.
+
+Theorem C10_union_replay_only_config : forall cfg c (r1 r2 : replay_t) un q t tl objs,
+  (forall root' evs', r1 (with_fail_conv cfg) root' evs' = r2 (with_fail_conv cfg) root' evs') ->
+  union_bind cfg c r1 un q t tl objs = union_bind cfg c r2 un q t tl objs.
+Proof. exact union_bind_replay_config. Qed.
+Print Assumptions C10_union_replay_only_config.
